@@ -468,6 +468,7 @@ pub struct FnOut {
 }
 
 struct Gen<'a> {
+    emitted: std::collections::HashSet<String>, // item keys already emitted (units imported along two paths share datatypes)
     repo: &'a str,
     features: &'a [String],
     probes: bool,
@@ -509,6 +510,8 @@ impl<'a> Gen<'a> {
                 }
             }
         }
+        // rule G: ghost (tracked) parameter appended to the signature
+        for (f, ptxt) in &unit.ghost_params { if *f == path { let a: syn::FnArg = syn::parse_str(ptxt).expect("ghost-param"); sig.inputs.push(a); *self.rules.dropped.entry("G:param".into()).or_default() += 1; } }
         // a function the verifier's front end rejected is kept by contract only (its obligations are then undecided)
         let forced = self.force_co.contains(&path);
         let contract_only = contract_only || forced;
@@ -560,6 +563,7 @@ impl<'a> Gen<'a> {
     }
 
     fn take_unit(&mut self, unit: &Unit, contract_only: bool) {
+        self.rules.extra_drop_derives = unit.drop_derives.clone();
         for (si, (src, takes)) in unit.sources.iter().enumerate() {
             if let Some(f) = &unit.source_feature[si] { if !self.features.contains(f) { continue; } }
             let text = std::fs::read_to_string(format!("{}/{}", self.repo, src)).unwrap_or_else(|e| { eprintln!("vx: LOST ANCHOR: cannot read {}: {}", src, e); std::process::exit(2) });
@@ -622,6 +626,7 @@ impl<'a> Gen<'a> {
                     }
                     continue;
                 }
+                if let Take::Item { kind, name } = take { if self.emitted.contains(&format!("{}:{}", kind, name)) { continue; } }
                 for item in &file.items {
                     let mut item = item.clone();
                     match (&mut item, take) {
@@ -653,19 +658,19 @@ impl<'a> Gen<'a> {
                                 }
                             }
                             s.vis = parse_quote!(pub);
-                            s.to_tokens(&mut self.items_ts); matched = true;
+                            s.to_tokens(&mut self.items_ts); matched = true; self.emitted.insert(format!("struct:{}", s.ident));
                         }
                         (Item::Enum(s), Take::Item { kind, name }) if kind == "enum" && s.ident == name => {
                             rules::clean_attrs(&mut s.attrs, &mut self.rules);
                             if unit.no_structural.contains(name) { rules::strip_derives(&mut s.attrs, &["Structural", "PartialEq", "Eq", "Clone"]); }
                             for v in s.variants.iter_mut() { rules::clean_attrs(&mut v.attrs, &mut self.rules); for f in v.fields.iter_mut() { rules::clean_attrs(&mut f.attrs, &mut self.rules); } }
                             s.vis = parse_quote!(pub);
-                            s.to_tokens(&mut self.items_ts); matched = true;
+                            s.to_tokens(&mut self.items_ts); matched = true; self.emitted.insert(format!("enum:{}", s.ident));
                         }
-                        (Item::Type(s), Take::Item { kind, name }) if kind == "type" && s.ident == name => { rules::clean_attrs(&mut s.attrs, &mut self.rules); s.to_tokens(&mut self.items_ts); matched = true; }
-                        (Item::Const(s), Take::Item { kind, name }) if kind == "const" && s.ident == name => { rules::clean_attrs(&mut s.attrs, &mut self.rules); s.to_tokens(&mut self.items_ts); matched = true; }
+                        (Item::Type(s), Take::Item { kind, name }) if kind == "type" && s.ident == name => { rules::clean_attrs(&mut s.attrs, &mut self.rules); s.to_tokens(&mut self.items_ts); matched = true; self.emitted.insert(format!("type:{}", s.ident)); }
+                        (Item::Const(s), Take::Item { kind, name }) if kind == "const" && s.ident == name => { rules::clean_attrs(&mut s.attrs, &mut self.rules); s.to_tokens(&mut self.items_ts); matched = true; self.emitted.insert(format!("const:{}", s.ident)); }
                         (Item::Fn(f), Take::Item { kind, name }) if kind == "fn" && f.sig.ident == name => {
-                            matched = true;
+                            matched = true; self.emitted.insert(format!("fn:{}", f.sig.ident));
                             self.process_fn(unit, contract_only, src, None, &mut f.attrs, &mut f.sig, &mut f.block, &None);
                             f.vis = parse_quote!(pub);
                             f.to_tokens(&mut self.items_ts);
@@ -675,6 +680,7 @@ impl<'a> Gen<'a> {
                             let tyname = imp.self_ty.to_token_stream().to_string().replace(' ', "");
                             let mut kept = vec![];
                             let mut any_fn = false;
+                            let mut dup_fn = false;
                             // rule T: associated types of a trait impl emitted as inherent are substituted (`Self::Item` -> its definition)
                             let assoc: Vec<(String, syn::Type)> = imp.items.iter().filter_map(|ii| if let syn::ImplItem::Type(t) = ii { Some((t.ident.to_string(), t.ty.clone())) } else { None }).collect();
                             if inherent_as.is_some() && !assoc.is_empty() {
@@ -717,17 +723,19 @@ impl<'a> Gen<'a> {
                                     syn::ImplItem::Fn(mut f) => {
                                         let fname = f.sig.ident.to_string();
                                         if !(fns.iter().any(|x| x == "*") || fns.contains(&fname)) { continue; }
+                                        let key = match inherent_as { Some((_, nn)) => format!("implfn:{}::{}", tyname, nn), None => format!("implfn:{}::{}::{}", imp.trait_.as_ref().map(|t| norm(&t.1.to_token_stream().to_string())).unwrap_or_default(), tyname, fname) };
+                                        if !self.emitted.insert(key) { dup_fn = true; continue; }
                                         any_fn = true;
                                         self.process_fn(unit, contract_only, src, Some(&tyname), &mut f.attrs, &mut f.sig, &mut f.block, inherent_as);
                                         if imp.trait_.is_none() || inherent_as.is_some() { f.vis = parse_quote!(pub); }
                                         kept.push(syn::ImplItem::Fn(f));
                                     }
-                                    syn::ImplItem::Const(mut c) => { if fns.iter().any(|x| x == "*" || x == "consts") { rules::clean_attrs(&mut c.attrs, &mut self.rules); c.vis = parse_quote!(pub); kept.push(syn::ImplItem::Const(c)); } }
+                                    syn::ImplItem::Const(mut c) => { if fns.iter().any(|x| x == "*" || x == "consts") && self.emitted.insert(format!("implconst:{}::{}", tyname, c.ident)) { rules::clean_attrs(&mut c.attrs, &mut self.rules); c.vis = parse_quote!(pub); kept.push(syn::ImplItem::Const(c)); } }
                                     syn::ImplItem::Type(t) => { if inherent_as.is_none() { kept.push(syn::ImplItem::Type(t)) } }
                                     _ => {}
                                 }
                             }
-                            if !any_fn && kept.is_empty() { continue; } // another impl block with the same header may hold the functions
+                            if !any_fn && kept.is_empty() { if dup_fn { matched = true; } continue; } // another impl block with the same header may hold the functions
                             matched = true;
                             rules::clean_attrs(&mut imp.attrs, &mut self.rules);
                             imp.items = kept;
@@ -774,7 +782,7 @@ fn main() {
         for n in drop { fs.loops.remove(&n); }
     }
     let mut rules0 = rules::Rules::default(); rules0.extra_drop_derives = unit.drop_derives.clone();
-    let mut gen = Gen { repo, features: &features, probes, rules: rules0, items_ts: TokenStream::new(), all_hints: vec![], hint_base: 0, probe_n: 1, fns: vec![], specs: BTreeMap::new(), force_co: force_co.clone(), shape_results: vec![] };
+    let mut gen = Gen { emitted: Default::default(), repo, features: &features, probes, rules: rules0, items_ts: TokenStream::new(), all_hints: vec![], hint_base: 0, probe_n: 1, fns: vec![], specs: BTreeMap::new(), force_co: force_co.clone(), shape_results: vec![] };
     let mut pre: Vec<String> = vec![];
     let mut inside: Vec<String> = vec![];
     // the unit's own include order wins; includes of imported units that it does not list are appended
